@@ -27,7 +27,7 @@ for pid in ALL:
         "engine": "coq-model+correspondence",
         "level_claimed": {"category": "proof", "text": meta["text"], "design_ref": meta.get("design_ref", "DESIGN.md §3 " + pid)},
         "level_note": meta["note"],
-        "technique": meta.get("technique", "machine-checked proof in Coq 8.16 about an executable Gallina model, tied to /repo by a differential correspondence run (extracted OCaml model vs Rust harness) and translated tables"),
+        "technique": meta.get("technique", "machine-checked proof in Coq 8.16 about an executable Gallina model; the tie to /repo is checked on every run by translators that regenerate parts of the model from the Rust source (tables, constants and compiled function bodies, with generated = model tie theorems) and by a differential correspondence run (extracted OCaml model vs Rust harness, debug and release) with an independent property oracle searching for failing inputs"),
     })
 m = {
     "version": 1,
